@@ -43,6 +43,17 @@ CHECKS = {
              'SparseVec::from,get semantics; ' + TB,
         technique='MIR CFG reachability/dominance (write-after-view ordering) + exhaustive path-table extraction for encode/decode and the per-cell view table',
         ref='§4 C16'),
+    'C20': dict(
+        level='other',
+        text='All unchecked usize->StorageT narrowing casts (AsPrimitive::as_) in the library crates are enumerated from the '
+             'MIR and classified by operand provenance; every cast of the length of, or an enumerate index over, a vector '
+             'still under construction must be covered by a "not big enough" guard on that same vector that lies after '
+             'its last growth and on every way from the cast to a return. State-count guards of the pager, StateGraph::new '
+             'and StateTable::new and the checked lexer rule-id conversion are checked for existence and placement.',
+        note='Necessary condition for "no width yields wrapped sizes/indices"; equality of results across accepted widths is '
+             'not decided as such. 7 operand origins are trusted with a stated reason (table in rules/c20.py). Trusted: ' + TB,
+        technique='guard-before-narrowing dataflow over MIR (def-use provenance, dominance, reachability of growth after guard)',
+        ref='§4 C20'),
 }
 
 NA = {
